@@ -48,9 +48,9 @@ type UpstreamConfig struct {
 	ExtraRoutes []*RouteConfig `yaml:"extra_routes"`
 
 	// Generated at Parse Time
-	Route interface{} // note: :/
+	Route interface{} `yaml:"-"` // note: :/
 
-	SkipAuthCompiledRegex []*regexp.Regexp
+	SkipAuthCompiledRegex []*regexp.Regexp `yaml:"-"`
 	AllowedGroups         []string
 	AllowedEmailDomains   []string
 	AllowedEmailAddresses []string
@@ -58,7 +58,7 @@ type UpstreamConfig struct {
 	SkipAuthPreflight     bool
 	PassAccessToken       bool
 	PreserveHost          bool
-	HMACAuth              hmacauth.HmacAuth
+	HMACAuth              hmacauth.HmacAuth `yaml:"-"`
 	Timeout               time.Duration
 	ResetDeadline         time.Duration
 	FlushInterval         time.Duration
